@@ -137,10 +137,18 @@ func checkC08(w *World, r *Report) {
 	r.Rule("TIME-REL", "an instalment is released exactly when due and not yet released", 1)
 	r.Rule("OPEN-GUARD", "bids are committed only while the auction is Started", 2)
 	r.Rule("FINISH-LAST", "finishing needs the last instalment", 1)
+	r.Rule("BB-BEGIN", "status processing runs in BeginBlock, before the block's messages", 1)
 	tm := NewTerms(w)
 	ms := w.msgServerMethods()
 	bb := w.beginBlockFn()
 	names := w.enumConsts("AuctionStatus")
+
+	// BB-BEGIN: the messages of a block decide from the stored status; it agrees with the block's time only if the
+	// per-auction processing has run before them, i.e. from the module's BeginBlock.
+	decl := w.declaredBeginBlockFn()
+	r.Check(decl == bb, "BB-BEGIN", "BeginBlock:runs-status-processing", w.pos(decl.Pos()),
+		"the module's BeginBlock (appmodule.HasBeginBlocker) reaches the keeper's per-auction processing",
+		"the per-auction processing is not reached from BeginBlock (it is run from "+fnName(bb)+"): status changes take effect only after the block's transactions, so a message in the first block at or after the start/end time still sees the old status (an auction can be cancelled after its start time, a bid is accepted after the end time)")
 
 	allowed := map[[2]int64]bool{{stStandBy, stStarted}: true, {stStarted, stVesting}: true, {stStarted, stFinished}: true, {stVesting, stFinished}: true, {stStandBy, stCancelled}: true}
 	seen := map[[2]int64]bool{}
@@ -275,7 +283,7 @@ func checkC08(w *World, r *Report) {
 		}
 	}
 	runGuard(w, r, tm, guardSpec{rule: "TIME-REL", id: "release:block-hook", root: bb, common: statusIs(stVesting),
-		what: "on a Vesting auction a transfer is performed exactly for an instalment with ReleaseTime ≤ BlockTime that is not yet released",
+		what:   "on a Vesting auction a transfer is performed exactly for an instalment with ReleaseTime ≤ BlockTime that is not yet released",
 		commit: func(e *Effect, in ssa.Instruction) bool { return e.Kind == EffTransfer }, commitTxt: "the release transfer",
 		cases: relCases, atoms: []string{"pair0", "released"},
 		consequence: "an instalment is paid early, late, or twice"})
